@@ -10,10 +10,22 @@
 //   C01w oeneg <tag> <DL> <NL> <eL> <l>                           => the same
 //   C01w ebi r|l add|sub|mul <DL> <NL> <eL> <B> <l> <b>           => sc(el(D,N),e,2)/<storage>:<v>
 //        (r: elastic OP built-in, l: built-in OP elastic; <l> is always the elastic operand's representation)
+//   SEC_C01WW  a MULTI-WORD wide_integer<D, N> (more than 127/128 digits; storage = uintwide_t of D/width(N) limbs),
+//              radix 2, 3, 10, equal and different exponents (alignment multiplies by radix^d in the wide type);
+//              values travel in hex (arbitrary precision, read limb by limb from the storage);
+//   SEC_C01WC  a cnl::constant<V> on either side of + - * next to a scaled_integer over a built-in (signed and
+//              unsigned, 8..64-bit) or an elastic_integer representation; V positive and negative.
+//   C01w wbin add|sub|mul <radix> <DL> <NL> <eL> <DR> <NR> <eR> <l hex> <r hex> => sc(wd(D,N),e,radix):<hex>
+//   C01w cbin r|l add|sub|mul <L> <eL> <V> <l>           => sc(T,e,2):<v>            (r: scaled OP constant, l: constant OP scaled)
+//   C01w cebin r|l add|sub|mul <DL> <NL> <eL> <V> <l>    => sc(el(D,N),e,2)/<storage>:<v>
+#if defined(SEC_C01WW)
+#include "C11.h"  // arbitrary-precision operands (Big, bigvals, bi_of, big_of, big_print)
+#else
 #include "vh.h"
 using namespace cnl;
 using namespace vh;
 static const bool vh_strict_on = (vh::strict = true);
+#endif
 
 #if defined(SEC_C01WO)
 #define OHEAD(NAME) \
@@ -63,7 +75,7 @@ void oneg(Rng& rng)
 }
 #endif
 
-#if defined(SEC_C01WOE) || defined(SEC_C01WEB)
+#if defined(SEC_C01WOE) || defined(SEC_C01WEB) || defined(SEC_C01WC)
 // operand values of an elastic_integer<D,N>: exhaustive for D <= 5, else a lattice within the declared range
 template<int D, class N>
 std::vector<I> evals(Rng& rng)
@@ -206,5 +218,161 @@ void ebgo(Rng& rng)
             { EBHEAD("l", "sub") VH_RUN(b - a, print_es) }
             { EBHEAD("l", "mul") VH_RUN(b * a, print_es) }
         }
+}
+#endif
+
+#if defined(SEC_C01WW)
+template<class Z>
+void print_ww(Z const& z)
+{
+    using N = typename nw_of<Z>::type;
+    fputs(tn<Z>().c_str(), stdout);
+    putchar(':');
+    big_print(big_of(innermost_any(z), bool(numbers::signedness_v<N>)));
+}
+#define WWHEAD(NAME) \
+    printf("C01w wbin " NAME " %d %d %s %d %d %s %d ", RX, LD, tn<LN>().c_str(), LE, RD, tn<RN>().c_str(), RE); \
+    big_print(l); \
+    putchar(' '); \
+    big_print(r); \
+    fputs(" => ", stdout);
+
+template<int LD, class LN, int LE, int RD, class RN, int RE, int RX>
+void wwgo(Rng& rng)
+{
+    using WA = wide_integer<LD, LN>;
+    using WB = wide_integer<RD, RN>;
+    using A = scaled_integer<WA, power<LE, RX>>;
+    using B = scaled_integer<WB, power<RE, RX>>;
+    using AB = _impl::rep_of_t<WA>;
+    using BB = _impl::rep_of_t<WB>;
+    static_assert(!is_builtin_int<AB> && !is_builtin_int<BB>, "multi-word storage only");
+    auto lv = bigvals<LD, std::is_signed_v<LN>>(rng, 3 * scale_from_env());
+    auto rv = bigvals<RD, std::is_signed_v<RN>>(rng, 3 * scale_from_env());
+    // small and medium magnitudes (far from the capacity: aligned operands and results fit)
+    for (long long s : {3LL, 15LL, 325LL, 15000LL, 1234567LL, 999999999999LL}) {
+        for (auto* v : {&lv, &rv}) {
+            v->push_back(big_small(s));
+            if (v == &lv ? std::is_signed_v<LN> : std::is_signed_v<RN>) v->push_back(big_small(-s));
+        }
+    }
+    for (auto const& l : lv)
+        for (auto const& r : rv) {
+            A a = _impl::from_rep<A>(_impl::from_rep<WA>(bi_of<AB>(l)));
+            B b = _impl::from_rep<B>(_impl::from_rep<WB>(bi_of<BB>(r)));
+            { WWHEAD("add") VH_RUN(a + b, print_ww) }
+            { WWHEAD("sub") VH_RUN(a - b, print_ww) }
+            { WWHEAD("mul") VH_RUN(a * b, print_ww) }
+        }
+}
+#endif
+
+#if defined(SEC_C01WC)
+// the constants of the grid (non-type template arguments): sign, trailing zero bits, beyond 31 digits
+#define C01W_CONSTS(X) X(1) X(6) X(-1) X(-3) X(-8) X(-40) X(96) X(255) X(-256) X(65536) X(-100000) X(2147483647) X(-2147483648LL) X(4294967296LL) X(-6442450944LL) X(123456789012LL)
+
+constexpr int c_tz(long long v)
+{
+    int n = 0;
+    while (v != 0 && !(v & 1)) {
+        v /= 2;
+        ++n;
+    }
+    return n;
+}
+constexpr int c_used(long long v)
+{
+    unsigned long long u = v < 0 ? ~(unsigned long long)v : (unsigned long long)v;
+    int n = 0;
+    while (u) {
+        u >>= 1;
+        ++n;
+    }
+    return n;
+}
+// digits of the representation a constant is given: set_digits_t<int, max(31, used_digits - trailing_bits)>
+constexpr int c_digits(long long v) { return c_used(v) - c_tz(v) <= 31 ? 31 : 63; }
+// + and - with different exponents multiply one operand by 2^d in its own (promoted) type: the power must fit (ill-formed otherwise)
+template<class P>
+constexpr bool c_alignable(long long v, int e)
+{
+    return c_tz(v) >= e ? c_tz(v) - e < c_digits(v) : e - c_tz(v) < digits_v<P>;
+}
+
+#define CHEAD(SIDE, NAME) \
+    printf("C01w cbin " SIDE " " NAME " %s %d %lld ", tn<R1>().c_str(), E1, (long long)V); \
+    prv(a); \
+    fputs(" => ", stdout);
+
+template<class R1, int E1, long long V>
+void cgo1(std::vector<R1> const& lv)
+{
+    using A = scaled_integer<R1, power<E1>>;
+    constexpr constant<V> c{};
+    for (R1 a : lv) {
+        A x = _impl::from_rep<A>(a);
+        if constexpr (c_alignable<decltype(+R1{})>(V, E1)) {
+            { CHEAD("r", "add") VH_RUN(x + c, print_num) }
+            { CHEAD("r", "sub") VH_RUN(x - c, print_num) }
+            { CHEAD("l", "add") VH_RUN(c + x, print_num) }
+            { CHEAD("l", "sub") VH_RUN(c - x, print_num) }
+        }
+        { CHEAD("r", "mul") VH_RUN(x * c, print_num) }
+        { CHEAD("l", "mul") VH_RUN(c * x, print_num) }
+    }
+}
+
+template<class R1, int E1>
+void cgo(Rng& rng)
+{
+    auto lv = vals<R1>(rng, 4 * scale_from_env(), sizeof(R1) > 4 ? 13 : sizeof(R1) > 2 ? 7 : sizeof(R1) > 1 ? 3 : 1);
+    for (R1 s : {R1(24), R1(1), R1(100)}) push_unique(lv, s);
+#define X(VV) cgo1<R1, E1, VV>(lv);
+    C01W_CONSTS(X)
+#undef X
+}
+
+template<class Z>
+void print_ces(Z const& z)
+{
+    fputs(tn<Z>().c_str(), stdout);
+    putchar('/');
+    using R = _impl::rep_of_t<_impl::rep_of_t<Z>>;
+    fputs(tn<R>().c_str(), stdout);
+    putchar(':');
+    prv(_impl::to_rep(_impl::to_rep(z)));
+}
+#define CEHEAD(SIDE, NAME) \
+    printf("C01w cebin " SIDE " " NAME " %d %s %d %lld ", LD, tn<LN>().c_str(), LE, (long long)V); \
+    pri(l); \
+    fputs(" => ", stdout);
+
+template<int LD, class LN, int LE, long long V>
+void cego1(std::vector<I> const& lv)
+{
+    using EA = elastic_integer<LD, LN>;
+    using A = scaled_integer<EA, power<LE>>;
+    using AR = _impl::rep_of_t<EA>;
+    constexpr constant<V> c{};
+    for (I l : lv) {
+        A x = _impl::from_rep<A>(_impl::from_rep<EA>(AR(l)));
+        if constexpr (c_tz(V) >= LE ? c_tz(V) - LE < c_digits(V) : LD + LE - c_tz(V) + 64 <= 126) {
+            { CEHEAD("r", "add") VH_RUN(x + c, print_ces) }
+            { CEHEAD("r", "sub") VH_RUN(x - c, print_ces) }
+            { CEHEAD("l", "add") VH_RUN(c + x, print_ces) }
+            { CEHEAD("l", "sub") VH_RUN(c - x, print_ces) }
+        }
+        { CEHEAD("r", "mul") VH_RUN(x * c, print_ces) }
+        { CEHEAD("l", "mul") VH_RUN(c * x, print_ces) }
+    }
+}
+
+template<int LD, class LN, int LE>
+void cego(Rng& rng)
+{
+    auto lv = evals<LD, LN>(rng);
+#define X(VV) cego1<LD, LN, LE, VV>(lv);
+    C01W_CONSTS(X)
+#undef X
 }
 #endif
